@@ -1,13 +1,14 @@
 (** C02 — no silent corruption: a successful open / read to end of stream / close delivers
     exactly the content the specification decoder obtains from the file, with every
     checksum matching.  Only statements; every proof is [exact lemma].
-    Scope of the proofs: files whose chunks are decoded as a unit (zstd), with and without
-    dictionary, with and without the uncompressed-source flag; for EVERY byte sequence, hash
-    function, zstd decoder, buffer-size sequence and loop fuel.  The streaming path of
-    uncompressed files (compression type 0) is covered by the correspondence run only:
-    the theorems are named [_zstd] and count as partial for the property as a whole. *)
+    Scope of the proofs: both compression types (zstd: chunks decoded as a unit, invariant
+    in Read/ReadProofs.v; type 0: bytes released before the chunk checksum is known, invariant
+    in Read/ReadNocomp.v), with and without dictionary, with and without the
+    uncompressed-source flag; for EVERY byte sequence, hash function, zstd decoder,
+    buffer-size sequence and loop fuel.  The [_zstd] theorems are kept for the files that
+    import them; the unrestricted ones follow them. *)
 From ZV Require Import Base.Bytes Gen.GenConsts Format.Compint Format.Header Format.ParseImpl Format.ParseProofs
-                       Format.ParseExamples Read.ReadSpec Read.CompRead Read.ReadLemmas Read.ReadProofs Read.ReadExamples.
+                       Format.ParseExamples Read.ReadSpec Read.CompRead Read.ReadLemmas Read.ReadProofs Read.ReadNocomp Read.ReadExamples.
 Local Open Scope N_scope.
 
 (** T2.1 whatever the bytes [f], the hash [H], the decoder [zdecomp], the buffer sizes and the
@@ -61,6 +62,39 @@ Proof.
   exact (unzck_zstd H zdecomp h f A B Hz C fuel calls vdc out).
 Qed.
 Print Assumptions C02_unzck_exit0_output_zstd.
+
+(** T2.1 for both compression types (the header layer accepts no other type). *)
+Theorem C02_read_close_success_is_verified_content :
+  forall (H : N -> bytes -> bytes) (zdecomp : option bytes -> bytes -> N -> option bytes) p f h fuel sizes out st' st2,
+  wf_bytes f -> parse_impl H p f = POk h ->
+  Forall (fun n => 0 < n) sizes ->
+  read_all H zdecomp h fuel (open_state h f) sizes [] = (out, Some true, st') ->
+  zck_close H h st' = (true, st2) ->
+  spec_verify H h f = true /\ spec_decode zdecomp h f = Some out.
+Proof.
+  intros H zdecomp p f h fuel sizes out st' st2 Hwf Hp.
+  destruct (header_facts H p f h Hwf Hp) as (A & B & C).
+  destruct (is_zstd h) eqn:Hz.
+  - exact (read_close_zstd H zdecomp h f A B Hz C fuel sizes out st' st2).
+  - exact (read_close_nocomp H zdecomp h f A B Hz C fuel sizes out st' st2).
+Qed.
+Print Assumptions C02_read_close_success_is_verified_content.
+
+(** T2.3 for both compression types. *)
+Theorem C02_unzck_exit0_output :
+  forall (H : N -> bytes -> bytes) (zdecomp : option bytes -> bytes -> N -> option bytes) p f h fuel calls vdc out,
+  wf_bytes f -> parse_impl H p f = POk h ->
+  (forall v st', vdc (open_state h f) = (v, st') -> (1 <= v)%Z -> st' = open_state h f) ->
+  unzck_model H zdecomp h f fuel calls vdc = (0, Some out) ->
+  spec_verify H h f = true /\ spec_decode zdecomp h f = Some out.
+Proof.
+  intros H zdecomp p f h fuel calls vdc out Hwf Hp.
+  destruct (header_facts H p f h Hwf Hp) as (A & B & C).
+  destruct (is_zstd h) eqn:Hz.
+  - exact (unzck_zstd H zdecomp h f A B Hz C fuel calls vdc out).
+  - exact (unzck_nocomp H zdecomp h f A B Hz C fuel calls vdc out).
+Qed.
+Print Assumptions C02_unzck_exit0_output.
 
 (** a non-zero exit status leaves no output file (the model's rendering of unlink) *)
 Theorem C02_unzck_failure_no_output :
